@@ -94,6 +94,46 @@ Theorem C03_crc_bits : forall cfg0 length, 0 <= cfg0 <= 255 ->
 Proof. exact crc_value_bits. Qed.
 Print Assumptions C03_crc_bits.
 
+(* pa_level = power | (power, lna), power in {-18,-12,-6,0}: RF_SETUP := pa_value cached power lna, whose bits 2,1
+   (RF_PWR, mask 6) are 00 | 01 | 10 | 11 = (3 - power / -6), whose bit 0 (LNA_HCURR) is lna (True when only the power
+   is given) and whose bits 7..3 are those of the object's cached RF_SETUP byte (bit 6 is not writable);
+   any other power in an accepted argument form: ValueError with nothing written anywhere *)
+Theorem C03_pa_level_encoding : forall me power p lna d w,
+  (me < length (radios w))%nat -> pa_arg power p lna -> 0 <= d_rf_setup d <= 255 -> pa_ok p ->
+  exists d1 w1, set_pa_level (WB me) power d w = (Ok tt, d1, w1)
+    /\ cview (get_radio w1 me) = cset (cview (get_radio w me)) 6 (pa_value (d_rf_setup d) p lna)
+    /\ (forall j, j <> me -> cview (get_radio w1 j) = cview (get_radio w j)).
+Proof. exact set_pa_level_world. Qed.
+Print Assumptions C03_pa_level_encoding.
+
+Theorem C03_pa_level_bits : forall cached p lna, 0 <= cached <= 255 -> pa_ok p ->
+  0 <= Z.lor (Z.lor (Z.land cached 248) (pa_bits p)) (zb lna) <= 255
+  /\ N.land (pa_value cached p lna) 6 = Z.to_N (pa_bits p)
+  /\ N.land (pa_value cached p lna) 1 = Z.to_N (zb lna)
+  /\ N.land (pa_value cached p lna) 248 = N.land (Z.to_N cached) 184.
+Proof. exact pa_value_bits. Qed.
+Print Assumptions C03_pa_level_bits.
+
+Theorem C03_pa_level_rejects : forall me power p lna d w,
+  (me < length (radios w))%nat -> pa_arg power p lna -> ~ pa_ok p ->
+  exists d1 w1, set_pa_level (WB me) power d w = (Exn ValueError, d1, w1)
+    /\ (forall j, cview (get_radio w1 j) = cview (get_radio w j)).
+Proof. exact set_pa_level_world_rejects. Qed.
+Print Assumptions C03_pa_level_rejects.
+
+(* ... and the formulas of the pa_level / is_lna_enabled getters, applied to that register content, give the power
+   and the LNA flag back *)
+Theorem C03_pa_level_getter : forall cached p lna, 0 <= cached <= 255 -> pa_ok p ->
+  (3 - Z.shiftr (Z.land (Z.of_N (pa_value cached p lna)) 6) 1) * -6 = p
+  /\ truthy (Z.land (Z.of_N (pa_value cached p lna)) 1) = lna.
+Proof. exact pa_value_getter. Qed.
+Print Assumptions C03_pa_level_getter.
+
+(* the premises are satisfiable: pa_level = (-12, False) on a cached RF_SETUP of 0x27 gives 0x22 *)
+Example C03_pa_level_nonvacuous :
+  pa_arg (PList [PInt (-12); PBool false]) (-12) false /\ pa_ok (-12) /\ pa_value 39 (-12) false = 34%N.
+Proof. split; [right; left; exists []; reflexivity|]. split; [right; left; reflexivity|reflexivity]. Qed.
+
 (* simulation: same result, same cached attributes (up to the status byte), same configuration of radio `me`,
    every other radio's configuration untouched -- for arbitrary arguments, valid or not *)
 Theorem C03_sim_setters : forall me,
